@@ -224,9 +224,12 @@ def main(tier, seed):
                 src = texts.get("compile %d %s" % (lvl, encs[k]))
                 if src is None: continue          # optimiser reported an encoding error: no program is emitted
                 jobs.append([src, stdins, tmp, "p%d_%d" % (k, lvl), 2, None]); meta.append((k, lvl, stdins))
-        spec = model_exec(want_ops, spec=True, timeout=900)
-        want = {o: (summarize(s) if not unjudged(s) else ("", "", "cut")) for o, s in zip(want_ops, spec)}
-        nojudge = {o for o, s in zip(want_ops, spec) if unjudged(s)}
+        want = {}; nojudge = set()
+        for b in range(0, len(want_ops), 400):       # batch by batch: the full traces of all runs at once took 12 GB
+            wb = want_ops[b:b + 400]
+            for o, s in zip(wb, model_exec(wb, spec=True, timeout=900)):
+                want[o] = summarize(s) if not unjudged(s) else ("", "", "cut")
+                if unjudged(s): nojudge.add(o)
         for j, (k, lvl, stdins) in zip(jobs, meta):
             j[5] = [want["one %s %s 4000" % (encs[k], enc_text(i))][2].split(" ")[0] != "cut" for i in stdins]
         # the model's reading of the emitted program (IR semantics, Prog.run) on the same inputs
